@@ -178,7 +178,8 @@ impl FsCommand {
     }
 
     fn check_can_rename(source: &Path, target: &Path) -> io::Result<()> {
-        if target.to_path_buf().exists() {
+        // `exists` would follow a symbolic link and miss a dangling one
+        if target.to_path_buf().symlink_metadata().is_ok() {
             return Err(io::Error::new(
                 ErrorKind::AlreadyExists,
                 format!(
